@@ -30,11 +30,13 @@ func (g *Genome) VMutateLinkWeights(power, rate float64, cold bool) (bool, error
 	}
 	return g.mutateLinkWeights(power, rate, mt)
 }
-func (g *Genome) VMutateRandomTrait(opts *neat.Options) (bool, error) { return g.mutateRandomTrait(opts) }
-func (g *Genome) VMutateLinkTrait(times int) (bool, error)            { return g.mutateLinkTrait(times) }
-func (g *Genome) VMutateNodeTrait(times int) (bool, error)            { return g.mutateNodeTrait(times) }
-func (g *Genome) VMutateToggleEnable(times int) (bool, error)         { return g.mutateToggleEnable(times) }
-func (g *Genome) VMutateGeneReEnable() (bool, error)                  { return g.mutateGeneReEnable() }
+func (g *Genome) VMutateRandomTrait(opts *neat.Options) (bool, error) {
+	return g.mutateRandomTrait(opts)
+}
+func (g *Genome) VMutateLinkTrait(times int) (bool, error)    { return g.mutateLinkTrait(times) }
+func (g *Genome) VMutateNodeTrait(times int) (bool, error)    { return g.mutateNodeTrait(times) }
+func (g *Genome) VMutateToggleEnable(times int) (bool, error) { return g.mutateToggleEnable(times) }
+func (g *Genome) VMutateGeneReEnable() (bool, error)          { return g.mutateGeneReEnable() }
 func (g *Genome) VMutateAllNonstructural(opts *neat.Options) (bool, error) {
 	return g.mutateAllNonstructural(opts)
 }
@@ -47,12 +49,16 @@ func (g *Genome) VMateMultipointAvg(og *Genome, id int, f1, f2 float64) (*Genome
 func (g *Genome) VMateSinglePoint(og *Genome, id int) (*Genome, error) {
 	return g.mateSinglePoint(og, id)
 }
-func (g *Genome) VCompatibility(og *Genome, opts *neat.Options) float64 { return g.compatibility(og, opts) }
-func (g *Genome) VCompatLinear(og *Genome, opts *neat.Options) float64  { return g.compatLinear(og, opts) }
-func (g *Genome) VCompatFast(og *Genome, opts *neat.Options) float64    { return g.compatFast(og, opts) }
-func (g *Genome) VNodeMapLen() int                                      { return len(g.nodeByIdMap) }
-func (g *Genome) VLastNodeId() (int, error)                             { return g.getLastNodeId() }
-func (g *Genome) VNextGeneInnovNum() (int64, error)                     { return g.getNextGeneInnovNum() }
+func (g *Genome) VCompatibility(og *Genome, opts *neat.Options) float64 {
+	return g.compatibility(og, opts)
+}
+func (g *Genome) VCompatLinear(og *Genome, opts *neat.Options) float64 {
+	return g.compatLinear(og, opts)
+}
+func (g *Genome) VCompatFast(og *Genome, opts *neat.Options) float64 { return g.compatFast(og, opts) }
+func (g *Genome) VNodeMapLen() int                                   { return len(g.nodeByIdMap) }
+func (g *Genome) VLastNodeId() (int, error)                          { return g.getLastNodeId() }
+func (g *Genome) VNextGeneInnovNum() (int64, error)                  { return g.getNextGeneInnovNum() }
 
 func VNewGenomeRand(newId, in, out, n, maxHidden int, recurrent bool, linkProb float64, opts *neat.Options) (*Genome, error) {
 	return newGenomeRand(newId, in, out, n, maxHidden, recurrent, linkProb, opts)
@@ -66,33 +72,39 @@ func (i *Innovation) VIsNode() bool { return i.innovationType == newNodeInnType 
 
 // ---- population ----
 
-func VNewEmptyPopulation() *Population                                  { return newPopulation() }
-func (p *Population) VSpeciate(ctx context.Context, orgs []*Organism) error { return p.speciate(ctx, orgs) }
-func (p *Population) VInnovationsRaw() []Innovation                     { return p.innovations }
-func (p *Population) VSetInnovationsRaw(in []Innovation)                { p.innovations = in }
-func (p *Population) VCounters() (nextInnov int64, nextNode int32)      { return p.nextInnovNum, p.nextNodeId }
+func VNewEmptyPopulation() *Population { return newPopulation() }
+func (p *Population) VSpeciate(ctx context.Context, orgs []*Organism) error {
+	return p.speciate(ctx, orgs)
+}
+func (p *Population) VInnovationsRaw() []Innovation      { return p.innovations }
+func (p *Population) VSetInnovationsRaw(in []Innovation) { p.innovations = in }
+func (p *Population) VCounters() (nextInnov int64, nextNode int32) {
+	return p.nextInnovNum, p.nextNodeId
+}
 func (p *Population) VSetCounters(nextInnov int64, nextNode int32) {
 	p.nextInnovNum, p.nextNodeId = nextInnov, nextNode
 }
-func (p *Population) VPurgeZeroOffspringSpecies(generation int) { p.purgeZeroOffspringSpecies(generation) }
+func (p *Population) VPurgeZeroOffspringSpecies(generation int) {
+	p.purgeZeroOffspringSpecies(generation)
+}
 
 // ---- organism ----
 
-func (o *Organism) VOriginalFitness() float64  { return o.originalFitness }
-func (o *Organism) VToEliminate() bool         { return o.toEliminate }
-func (o *Organism) VIsChampion() bool          { return o.isChampion }
-func (o *Organism) VSuperChampOffspring() int  { return o.superChampOffspring }
-func (o *Organism) VIsPopChampion() bool       { return o.isPopulationChampion }
-func (o *Organism) VIsPopChampionChild() bool  { return o.isPopulationChampionChild }
-func (o *Organism) VHighestFitness() float64   { return o.highestFitness }
-func (o *Organism) VMutStructBaby() bool       { return o.mutationStructBaby }
-func (o *Organism) VMateBaby() bool            { return o.mateBaby }
+func (o *Organism) VOriginalFitness() float64          { return o.originalFitness }
+func (o *Organism) VToEliminate() bool                 { return o.toEliminate }
+func (o *Organism) VIsChampion() bool                  { return o.isChampion }
+func (o *Organism) VSuperChampOffspring() int          { return o.superChampOffspring }
+func (o *Organism) VIsPopChampion() bool               { return o.isPopulationChampion }
+func (o *Organism) VIsPopChampionChild() bool          { return o.isPopulationChampionChild }
+func (o *Organism) VHighestFitness() float64           { return o.highestFitness }
+func (o *Organism) VMutStructBaby() bool               { return o.mutationStructBaby }
+func (o *Organism) VMateBaby() bool                    { return o.mateBaby }
 func (o *Organism) VCachedPhenotype() *network.Network { return o.orgPhenotype }
 
 // ---- species ----
 
-func (s *Species) VAdjustFitness(opts *neat.Options)              { s.adjustFitness(opts) }
-func (s *Species) VCountOffspring(skim float64) (int, float64)    { return s.countOffspring(skim) }
+func (s *Species) VAdjustFitness(opts *neat.Options)           { s.adjustFitness(opts) }
+func (s *Species) VCountOffspring(skim float64) (int, float64) { return s.countOffspring(skim) }
 func (s *Species) VReproduce(ctx context.Context, generation int, pop *Population, sorted []*Species) ([]*Organism, error) {
 	return s.reproduce(ctx, generation, pop, sorted)
 }
@@ -123,4 +135,6 @@ func (p *ParallelPopulationEpochExecutor) VReproduce(ctx context.Context, genera
 func (p *ParallelPopulationEpochExecutor) VFinalize(ctx context.Context, pop *Population) error {
 	return p.sequential.finalizeReproduction(ctx, pop)
 }
-func (p *ParallelPopulationEpochExecutor) VSortedSpecies() []*Species { return p.sequential.sortedSpecies }
+func (p *ParallelPopulationEpochExecutor) VSortedSpecies() []*Species {
+	return p.sequential.sortedSpecies
+}
